@@ -57,3 +57,24 @@ def heur_mc(ck, algs, invariants, maxn=4, maxv=6, maxk=3, cs=(5, 6), minv=0):
            (maxn, minv, maxv, maxk, ", ".join(map(str, cs)), ", ".join('"%s"' % a for a in algs), "".join("INVARIANT %s\n" % i for i in invariants)))
     return ck.mc("Heuristics", cfg, "MC stepwise heuristic machines %s, n<=%d v<=%d: %s at every step" % ("/".join(algs), maxn, maxv, ", ".join(invariants)),
                  coverage=True, required_actions=tuple(sorted({acts[a] for a in algs})) + ("Done",))
+
+
+def cbldm_cfg(maxn, maxv, ds, interrupt, invariants, props=()):
+    return ("CONSTANTS MaxN = %d MinV = 0 MaxV = %d Ds = {%s} AllowInterrupt = %s\nINIT Init\nNEXT Next\n%s%s" %
+            (maxn, maxv, ", ".join(map(str, ds)), "TRUE" if interrupt else "FALSE", "".join("INVARIANT %s\n" % i for i in invariants), "".join("PROPERTY %s\n" % p for p in props)))
+
+
+def cbldm_mc(ck, maxn, maxv, ds, interrupt, invariants, props=()):
+    return ck.mc("CBLDM", cbldm_cfg(maxn, maxv, ds, interrupt, invariants, props),
+                 "MC CBLDM n<=%d v<=%d bounds %s%s: %s" % (maxn, maxv, ds, " with Interrupt at every call" if interrupt else "", ", ".join(list(invariants) + list(props))),
+                 coverage=True, required_actions=("Leaf", "Prune", "Branch") + (("Interrupt",) if interrupt else ()))
+
+
+def cbldm_replay(ck, maxn, maxv, ds):
+    r = ck.mc("CBLDM", cbldm_cfg(maxn, maxv, ds, False, ["Emit"]), "GEN CBLDM terminal states (model's own partition and call count)")
+    recs = r.emitted
+    traces = [t for p in core.pmap(drive.replay_cbldm, recs) for t in p]
+    fails = ck.judge("JDrift", traces, {"DRIFT"}, what="spec->code replay of CBLDM (%d stimuli)" % len(recs), count_events=lambda t: 1)
+    ck.classify(fails, lambda fl: {"alg": "cbldm", "key": fl["trace"]["key"], "model": fl["trace"]["m"], "code": fl["trace"]["c"]})
+    ck.cat("cbldm_model_replays", len(recs))
+    return recs
